@@ -103,6 +103,7 @@ class Interp:
         self.draws = []           # (method, receiver AV, node, mod, where)
         self.unresolved = []
         self.cb_calls = []
+        self._nonlocal_out = None
         self.call_log = []        # (qualname, {param: AV at entry}, result)
         # parallel to call_log: undecided-branch depth / weak-update depth at
         # the call and the calling function
@@ -289,6 +290,22 @@ class Interp:
             hook = self.trace_hooks.get(fn.qualname)
             if hook:
                 hook(self, fn, outs)
+            nl_names = [g_ for n_ in ast.walk(fn.node)
+                        if isinstance(n_, ast.Nonlocal) and
+                        model.enclosing_function(self.prog, fn.module, n_)
+                        is fn for g_ in n_.names] \
+                if isinstance(fn.node, ast.FunctionDef) else []
+            if nl_names:
+                envs_ = [oc.env for oc in outs if oc.kind in ('ret', 'next')
+                         and oc.env is not None]
+                out_nl = {}
+                for g_ in nl_names:
+                    vals_ = [e_[g_] for e_ in envs_ if g_ in e_ and
+                             isinstance(e_[g_], AV)]
+                    if vals_:
+                        out_nl[g_] = join_all(vals_) if len(vals_) > 1 \
+                            else vals_[0]
+                self._nonlocal_out = out_nl
             if not entry and not rets and \
                     any(oc.kind == 'raise' for oc in outs):
                 # every abstract path of the callee raises: the exception
@@ -2114,8 +2131,24 @@ class Interp:
             if isinstance(fn.node, ast.Lambda):
                 return self.call_lambda(fv, pos, kw, node)
             closure = fv.env
-            return self.call_teneva(fn, pos, kw, node, self_=fv.self_,
-                                    closure=closure)
+            cur_fn = self.stack[-1].fn if self.stack else None
+            by_definer = fn.parent is not None and cur_fn is fn.parent and \
+                env is not None
+            if by_definer:
+                # a closure called by the function that defines it reads the
+                # CURRENT values of the enclosing variables (late binding)
+                closure = env
+            self._nonlocal_out = None
+            res = self.call_teneva(fn, pos, kw, node, self_=fv.self_,
+                                   closure=closure)
+            out_ = self._nonlocal_out
+            self._nonlocal_out = None
+            if out_ and by_definer:
+                # ``nonlocal x`` in the closure: its assignments are
+                # assignments to the definer's variable
+                for n_, v_ in out_.items():
+                    env[n_] = v_
+            return res
         if k == 'class':
             return self.instantiate(fv.cls, pos, kw, node)
         if k == 'ext':
